@@ -382,6 +382,97 @@ static std::string run(const Sx& c) {
       o << (first ? "" : " ") << as; first = false;
     }
     o << " " << (mok ? 1 : 0) << ")";
+  } else if (kind == 16) {    // session on ONE DbGrid object: mutations, db_grid_define_coordinates and the other materialisations of node coordinates
+    GSpec s = readG(c[1]);
+    DbGrid* db = makeDbGrid(s, true);
+    if (db == nullptr) return "(-997 2)";
+    bool mok = dbMatOk(s, db);
+    int ndim = s.ndim;
+    { int ng = db->getSampleNumber(); VectorDouble z(ng); for (int i = 0; i < ng; i++) z[i] = 1000. + i; db->addColumns(z, "z", ELoc::Z); }
+    auto rowsOf = [&](bool stored) {
+      int n = db->getSampleNumber(); std::string t = "(";
+      std::vector<VD> cols;
+      if (stored) for (int d = 0; d < ndim; d++) cols.push_back(deep(db->getColumnByLocator(ELoc::X, d, false, false)));
+      for (int r = 0; r < n; r++) { VD v; for (int d = 0; d < ndim; d++) v.push_back(stored ? (r < (int) cols[d].size() ? cols[d][r] : TEST) : db->getCoordinate(r, d)); t += (r ? " " : "") + sx_vd(v); }
+      return t + ")";
+    };
+    o << "(";
+    bool first = true;
+    for (auto& q : c[2].l) {
+      int f = (int) q[0].i(); std::string as = "()";
+      if (f == 100) db->setX0((int) q[1].i(), q[2].d());
+      else if (f == 101) db->setDX((int) q[1].i(), q[2].d());
+      else if (f == 103) {
+        Grid aux(ndim, db->getNXs(), db->getX0s(), db->getDXs()); aux.setRotationByAngles(toVD(q[1].vd()));
+        db->gridCopyParams(4, aux);
+        VD rm = deep(db->getGrid().getRotMat());
+        for (int j = 0; j < ndim; j++) for (int i = 0; i < ndim; i++) { double want = q[2].size() == 0 ? (i == j ? 1. : 0.) : q[2][i][j].d(); if (rm[j * ndim + i] != want) mok = false; }
+      }
+      else if (f == 23) { int e = db_grid_define_coordinates(db); as = "(" + rowsOf(true) + " " + rowsOf(false) + " " + std::to_string(e) + ")"; }
+      else if (f == 24) { db->generateCoordinates("g"); as = "(" + rowsOf(true) + " " + rowsOf(false) + " 0)"; }
+      else if (f == 25) {
+        VectorVectorDouble all = db->getAllCoordinates(false); int n = db->getSampleNumber(); as = "(";
+        for (int r = 0; r < n; r++) { VD v; for (int d = 0; d < ndim; d++) v.push_back(all[d].getVector()[r]); as += (r ? " " : "") + sx_vd(v); }
+        as += ")";
+      }
+      else if (f == 26) {
+        MatrixRectangular m = db->getAllCoordinatesMat(); int n = db->getSampleNumber(); as = "(";
+        for (int r = 0; r < n; r++) { VD v; for (int d = 0; d < ndim; d++) v.push_back(m.getValue(r, d)); as += (r ? " " : "") + sx_vd(v); }
+        as += ")";
+      }
+      else if (f == 27) as = sx_vd(deep(db->getSampleCoordinates((int) q[1].i())));
+      else if (f == 28) {
+        if (ndim == 3) {
+          int pos = (int) q[1].i(), ind = (int) q[2].i();
+          VectorVectorDouble sl = db->getSlice("z", pos, ind, false);
+          int d1 = (pos == 0) ? 1 : 0, d2 = (pos == 2) ? 1 : 2;
+          std::string rk = "(", rw = "("; int ecr = 0;
+          for (int i1 = 0; i1 < db->getNX(d1); i1++) for (int i2 = 0; i2 < db->getNX(d2); i2++, ecr++) {
+            VI idx(3, 0); idx[pos] = ind; idx[d1] = i1; idx[d2] = i2;
+            rk += (ecr ? " " : "") + std::to_string(db->getGrid().indiceToRank(idx));
+            VD v; for (int d = 0; d < 3; d++) v.push_back(sl.size() == 4 && ecr < (int) sl[d].size() ? sl[d].getVector()[ecr] : TEST);
+            rw += (ecr ? " " : "") + sx_vd(v);
+          }
+          as = "(" + rk + ") " + rw + "))";
+        }
+      }
+      else as = answerQuery(db->getGrid(), db, ndim, q);
+      o << (first ? "" : " ") << as; first = false;
+    }
+    o << " " << (mok ? 1 : 0) << ")";
+    delete db;
+  } else if (kind == 17) {    // createFromGridShrink (op 0, arg = deleted dimension) / createFromGridExtend (op 1, arg = count of the new dimension)
+    GSpec s = readG(c[1]); int op = (int) c[2].i(); int arg = (int) c[3].i();
+    DbGrid* db = makeDbGrid(s, true);
+    if (db == nullptr) return "(-997 2)";
+    bool mok = dbMatOk(s, db);
+    DbGrid* ch = nullptr;
+    if (op == 0) ch = DbGrid::createFromGridShrink(*db, VectorInt({arg}));
+    else {
+      int ng = db->getSampleNumber(); VectorDouble top(ng), bot(ng);
+      for (int i = 0; i < ng; i++) { bot[i] = 10. + (i % 3); top[i] = 20. + (i % 5); }
+      db->addColumns(bot, "bot", ELoc::UNKNOWN); db->addColumns(top, "top", ELoc::UNKNOWN);
+      ch = DbGrid::createFromGridExtend(*db, {"top"}, {"bot"}, VectorInt({arg}), false, 0.);
+    }
+    if (ch == nullptr || ch->getNDim() == 0) { delete db; return "(-997 3)"; }
+    int nd = ch->getNDim(); int n = ch->getSampleNumber(); if (n > 300) n = 300;
+    o << "(" << sx_vi(deepi(ch->getNXs())) << " " << sx_vd(deep(ch->getDXs())) << " " << sx_vd(deep(ch->getX0s())) << " (";
+    for (int r = 0; r < n; r++) {
+      VI idx(nd, 0); ch->getGrid().rankToIndice(r, idx);
+      VI pidx;   // indices of the corresponding node of the parent
+      if (op == 0) { for (int d = 0, k = 0; d < s.ndim; d++) pidx.push_back(d == arg ? 0 : idx[k++]); }
+      else for (int d = 0; d < s.ndim; d++) pidx.push_back(idx[d]);
+      int pr = db->getGrid().indiceToRank(pidx);
+      VD cc, pc; std::vector<VD> st;
+      for (int d = 0, k = 0; d < s.ndim; d++) {
+        if (op == 0 && d == arg) continue;
+        pc.push_back(db->getCoordinate(pr, d)); cc.push_back(ch->getCoordinate(r, op == 0 ? k : d)); k++;
+      }
+      VD sc; for (int d = 0; d < (int) cc.size(); d++) sc.push_back(ch->getColumnByLocator(ELoc::X, d, false, false).getVector()[r]);
+      o << (r ? " " : "") << "(" << sx_vd(cc) << " " << sx_vd(pc) << " " << sx_vd(sc) << ")";
+    }
+    o << ") " << (mok ? 1 : 0) << ")";
+    delete ch; delete db;
   } else if (kind == 11 || kind == 12 || kind == 13 || kind == 15) {   // migration: 11 point->grid, 12 grid->point, 13 grid->grid, 15 grid->point interpolated
     auto vals_of = [](const Sx& v) { VectorDouble r(v.size()); for (size_t i = 0; i < v.size(); i++) r[i] = v[i].d(TEST); return r; };
     auto out_vals = [](const VD& r) { std::string t = "("; for (size_t i = 0; i < r.size(); i++) { if (i) t += " "; t += sx_d(r[i]); } return t + ")"; };
